@@ -12,7 +12,7 @@
    guard pol p             : g2 p (no finally block contains a contract call) and, for Lazy, g1 p (a catch block that
                              is followed by a finally block makes no un-layered call).  Outside the guards the
                              statements are FALSE for the code as it is: C04_rollback_exact_refuted_*. *)
-From NG Require Import Common.Tactics Exec.CallTree Exec.Spec Exec.CallTreeFrame Exec.CallTreeProofs Exec.CallTreeWitness.
+From NG Require Import Common.Tactics Exec.CallTree Exec.Spec Exec.CallTreeFrame Exec.CallTreeProofs Exec.CallTreeWitness Exec.BlockProofs.
 Open Scope N_scope.
 
 (* tx_atomic, fault half — for ALL call trees, both policies, any base state and fee: a transaction that does not halt
@@ -102,6 +102,37 @@ Theorem C04_readonly_callee_changes_nothing : forall pol p cid fl it,
   ro fl = true -> pres (exec pol p cid fl it).
 Proof. exact exec_ro. Qed.
 Print Assumptions C04_readonly_callee_changes_nothing.
+
+(* "in any block position": storeBlock runs the transactions of a block on one reused VM.  With VM.Reset between
+   transactions the block is the fold of single transactions, each alone on what the halted ones before it left —
+   whatever the registers held when the previous transaction ended (a fault does not unload contexts) *)
+Theorem C04_block_is_fold : forall pol base txs,
+  apply_block pol base txs = seq_txs pol (fold_left (fun b t => charge (fst t) b) txs base) (map snd txs).
+Proof. exact apply_block_is_fold. Qed.
+Print Assumptions C04_block_is_fold.
+
+(* a transaction that does not halt, at ANY position of a block, is as if it were not there (fee aside): same final
+   state, same results of every other transaction; ALL call trees, no guard *)
+Theorem C04_block_position_independent : forall pol ps1 base p ps2,
+  (forall b os, seq_txs pol base ps1 = (b, os) -> halted (run_tx pol b p) = false) ->
+  let '(b, os) := seq_txs pol base (ps1 ++ p :: ps2) in
+  let '(b', os') := seq_txs pol base (ps1 ++ ps2) in
+  b = b' /\ firstn (length ps1) os = firstn (length ps1) os' /\ skipn (S (length ps1)) os = skipn (length ps1) os'.
+Proof. exact seq_txs_skip_faulted. Qed.
+Print Assumptions C04_block_position_independent.
+
+(* what the reset is for: without it an exception left pending by a faulted transaction makes a later, halting
+   transaction drop its layered callee *)
+Example C04_example_no_reset_position_matters :
+  let '(st, os) := run_txs Lazy false (base0, false) [pend; later] in
+  let '(st', os') := run_txs Lazy true (base0, false) [pend; later] in
+  map halted os = [false; true] /\ map halted os' = [false; true] /\
+  lookup (1, 0) (lst (fst st)) = None /\ lookup (1, 0) (lst (fst st')) = Some 5.
+Proof. exact no_reset_position_matters. Qed.
+Example C04_example_block :
+  apply_block Lazy base0 [(3, pend); (3, later)] = seq_txs Lazy (charge 3 (charge 3 base0)) [pend; later] /\
+  lookup (1, 0) (lst (fst (apply_block Lazy base0 [(3, pend); (3, later)]))) = Some 5.
+Proof. exact block_example. Qed.
 
 (* non-vacuity *)
 Example C04_example_guarded_tree : guard Lazy ex1 = true /\ guard Eager ex1 = true.
